@@ -41,7 +41,7 @@ def make_record():
     r = D(num=5, s="abc", ip="10.0.0.1", netw="10.0.0.0/8", lst=["a", "b"],
           dt=_pydt.datetime(2020, 1, 2, 3, 4, 5, tzinfo=_pydt.timezone.utc), p="/tmp/x", cmd="ls -l",
           dg=("d41d8cd98f00b204e9800998ecf8427e", None, None), b=b"xyz", f=1.5, bo=True, u="http://a/b", u16=7,
-          sl=["q"], il=[1, 2], _generated=_pydt.datetime(2020, 1, 1, tzinfo=_pydt.timezone.utc))
+          sl=["q"], il=[1, 2], _source="hostB/x", _generated=_pydt.datetime(2020, 1, 1, tzinfo=_pydt.timezone.utc))
     return D, r
 
 
@@ -146,7 +146,7 @@ def known_class(kf, case):
     """Does a listed known finding cover this failing case (same class AND same wrong outcome)?"""
     for f in kf:
         m = f.get("match", {})
-        if all(case.get(k) == v for k, v in m.items()):
+        if all((case.get(k) in v) if isinstance(v, list) else (case.get(k) == v) for k, v in m.items()):
             return f
     return None
 
@@ -156,8 +156,10 @@ def enumerate_grammar(ctx, kf):
     D, r = make_record()
     cases = []      # coq terms
     metas = []
-    for (opname, optxt), side, (oexpr, ofn), (cname, cfmt), engine in itertools.product(
-            OPS, ("SLeft", "SRight"), OTHERS, CTXS, ("interpreted", "compiled")):
+    # the missing operand is spelled as a field the record lacks, or as an attribute of one (r.parent.name on a record
+    # without `parent`): both evaluate to the sentinel, so the model term is the same
+    for (opname, optxt), side, (oexpr, ofn), (cname, cfmt), engine, miss in itertools.product(
+            OPS, ("SLeft", "SRight"), OTHERS, CTXS, ("interpreted", "compiled"), ("r.zz", "r.zz.sub")):
         if ofn == "MISSING":
             oterm, oinfo = "OSent", dict(eq="-", ne="-", ord="-", cont="missing")
         elif isinstance(ofn, str):
@@ -169,7 +171,7 @@ def enumerate_grammar(ctx, kf):
         else:
             t, oinfo = probe_other(ofn(r), NONE_OBJECT)
             oterm = "(OOth %s)" % t
-        e = "r.zz %s %s" % (optxt, oexpr) if side == "SLeft" else "%s %s r.zz" % (oexpr, optxt)
+        e = "%s %s %s" % (miss, optxt, oexpr) if side == "SLeft" else "%s %s %s" % (oexpr, optxt, miss)
         full = cfmt.format(e=e)
         if engine == "interpreted":
             out = outcome_of(lambda: Selector(full).match(r))
@@ -180,7 +182,7 @@ def enumerate_grammar(ctx, kf):
                     other_eq=oinfo["eq"], other_ne=oinfo["ne"], outcome=list(out), holds=(out == expected))
         metas.append(meta)
         cases.append("run %s %s %s %s %s %s" % (cbool(engine == "interpreted"), opname, side, cname, oterm, coq_res(out)))
-        ctx.count_case((opname, side, oexpr, cname, engine), nontrivial=True)
+        ctx.count_case((opname, side, oexpr, cname, engine, miss), nontrivial=True)
     return D, r, cases, metas
 
 
@@ -276,6 +278,13 @@ def helper_checks(ctx):
         ("field_regex(r, ['zz', 's'], 'a.c')", True), ("field_regex(r, ['zz'], '.*')", False),
         ("has_field(r, 'zz')", False), ("has_field(r, 's')", True),
         ("field_equals(r, ['s', 'zz'], ['nomatch'])", False),
+        # the record argument itself is a field the record lacks (a nested record some record types do not have)
+        ("field_equals(r.zz, ['name'], ['init'])", False), ("field_contains(r.zz, ['s'], ['b'])", False),
+        ("field_regex(r.zz, ['s'], '.')", False), ("field_equals(r.zz.yy, ['a'], ['b'])", False),
+        ("has_field(r.zz, 'a')", False), ("field_equals(r.zz, ['name'], ['init']) or r.s == 'abc'", True),
+        # reserved fields are fields every record has: never skipped
+        ("field_contains(r, ['_source'], ['hostB/'])", True), ("field_equals(r, ['zz', '_source'], ['HOSTB/X'])", True),
+        ("field_regex(r, ['_source', 'zz'], '^host')", True), ("field_equals(r, ['_version'], [1], nocase=False)", True),
     ]
     for e, want in exprs:
         for eng, cls in (("interpreted", Selector), ("compiled", CompiledSelector)):
